@@ -135,6 +135,28 @@ CHECKS = {
             "DESIGN.md 4/C20"),
 }
 
+EXTRA = {
+    "C01": " Candidates refused once are offered again later (verdicts must not depend on history).",
+    "C02": " Candidates refused once are offered again later.",
+    "C05": " Candidates refused once are offered again later.",
+    "C08": " A thread lane hands blocks to the store while another thread flushes, with a delay injected after the sqlite write.",
+    "C09": " Rejected blocks are delivered again later; plus EVERY sequence of 3 (quick) / 5 (thorough) deliveries from an 8-event "
+           "alphabet on a small chain.",
+    "C11": " A socket lane drives the full path below the selector with harness-chosen read sizes; an auxiliary lane runs the "
+           "repository's integration tests on real TCP with a per-connection order monitor.",
+    "C12": " Transactions keep entering the pool while the nonce loop runs.",
+    "C13": " Refused transactions are submitted again later; plus EVERY sequence of 4 / 5 operations from a 9-operation alphabet on "
+           "a small forked world.",
+    "C14": " Plus EVERY sequence of 3 / 4 requests from a 19-request alphabet on a small wallet.",
+    "C15": " After every crash point the process is restarted and a completed (shorter) save must produce exactly the saved wallet.",
+    "C16": " A history lane asks heights in random order with repeats (the schedule must be a function of the height alone).",
+    "C17": " A consensus lane computes header commitments of edited transaction lists back to back through "
+           "consensus.calc_merkle_root_hash.",
+    "C18": " The recorded blocks are also validated while a competing block is the head.",
+    "C19": " EVERY sequence of 5 / 6 events from an 8-event alphabet on one address with a clock that moves in seconds; auxiliary "
+           "lane: the repository's integration tests (real sockets and threads) with the disjointness monitor attached.",
+}
+
 PENDING_REASON = "check not built yet in this revision of /verif (work in progress; no claim made)"
 
 
@@ -152,7 +174,7 @@ def main():
             "evidence_file": "/verif/evidence/%s.json" % pid,
             "replay_cmd_template": "./check %s --replay {path}" % pid,
             "engine": "skv",
-            "level_claimed": {"category": cat, "text": text, "design_ref": dref},
+            "level_claimed": {"category": cat, "text": text + EXTRA.get(pid, ""), "design_ref": dref},
             "level_note": note,
             "technique": tech,
         })
